@@ -36,6 +36,7 @@ def step (_ : Unit) (toks : List String) : Unit × String :=
     match kindOfNat (n k) with
     | some kd => ((), s!"ok type={kd.code} struct={kd.structName} enc={if kd.isJson then "json" else "custom"}")
     | none => ((), "bad-op")
+  | ["held", _, cnt, gs] => ((), s!"ok n={n cnt * (if n gs < 1 then 1 else n gs)}")   -- encodings are values: later calls cannot change them
   | ["sigcp", f, _] => ((), if cpFieldCovered f then "verify=fail" else "verify=ok")
   | ["sigprop", f, _, ep] => ((), propOutcome f (ep == "1"))
   | _ => ((), "bad-op")
